@@ -225,8 +225,7 @@ theorem timed_meta_closed (t : Track) (ht : totalTicks t < 4294967296) (he : EOT
       exact ⟨ys, e, rfl, by simpa using hc⟩
   have hmeta : metaOf (init ++ [e]) =
       (absList 0 init).filter (fun te => getChannel te.msg == none) ++ [⟨totalTicks (init ++ [e]), EOT⟩] := by
-    simp [metaOf, absList_append, absList, List.filter_append, hmsg, getChannel_EOT, totalTicks_append,
-      totalTicks_cons, totalTicks]
+    simp [metaOf, absList_append, absList, List.filter_append, hmsg, getChannel_EOT, totalTicks]
   have hw : Within 0 (totalTicks (init ++ [e])) (metaOf (init ++ [e])) := by
     have := within_absList 0 (init ++ [e])
     rw [Nat.zero_add] at this
